@@ -188,6 +188,36 @@ Contract(
     notes="VAL k stores the decoded value, REF k returns the value stored under the same key (keys distinct as the encoder guarantees)",
 )
 
+def _replay(ob, seed):
+    """native replay of a failed history obligation: small pool of shared objects incl. pairs with colliding hashes"""
+    import itertools
+
+    import cirq
+    from cirq.protocols import json_serialization as js
+
+    pool = []
+    for q in (cirq.LineQubit(-1), cirq.LineQubit(-2), cirq.LineQubit(0), cirq.GridQubit(-1, 0), cirq.GridQubit(-2, 0)):
+        pool += [cirq.FrozenCircuit(cirq.X(q)), cirq.FrozenCircuit(cirq.X(q))]  # equal values, distinct identities
+    for objs in itertools.product(pool, repeat=3):
+        enc = js.CirqEncoder()
+        seen, ok = [], True
+        for o in objs:
+            r = enc.default(o)
+            first = next((i for i, p in enumerate(seen) if p == o), None)
+            if first is None:
+                want_key = len(seen)
+                seen.append(o)
+                ok = r.get("cirq_type") == "VAL" and r.get("key") == want_key
+            else:
+                ok = r.get("cirq_type") == "REF" and r.get("key") == first
+            if not ok:
+                return dict(args=dict(history=[repr(x) for x in objs], hashes=[hash(x) for x in objs]), failed="memo history",
+                            clause=ob.name, how="cirq.protocols.json_serialization.CirqEncoder().default(o) for each o in turn; REF k must be returned exactly for a value equal to the k-th distinct value")
+    return None
+
+
+REPLAYERS = {"verif:contracts/C11_memo.py:encode3": _replay}
+
 CANARIES = [
     dict(name="encoder memo keyed by hash(o)", file=F,
          find="                if ref := self._memo.get(o):\n                    return ref\n                key = len(self._memo)\n                ref = {\"cirq_type\": \"REF\", \"key\": key}\n                self._memo[o] = ref",
